@@ -67,6 +67,7 @@ class Graph:
         self.nodes = []       # (id, cluster or None, attrs)
         self.clusters = []    # (name, parent cluster or None, graph attrs)
         self.edges = []       # (tail, head, attrs)
+        self.edge_clusters = []   # same index as edges: the cluster whose body holds the edge statement (None = top)
         self.compound = None
 
 
@@ -148,6 +149,7 @@ def parse(src):
                     pos[0] += 1
                     attrs = attr_list() if peek() == ("punct", "[") else {}
                     g.edges.append((t[1], h[1], attrs))
+                    g.edge_clusters.append(cluster)
                 else:
                     attrs = attr_list() if peek() == ("punct", "[") else {}
                     g.nodes.append((t[1], cluster, attrs))
